@@ -117,4 +117,5 @@ def run(chk):
 
 
 def safety_net(chk):
-    return mont_battery(chk.seed)
+    from .c19 import fresh_battery
+    return mont_battery(chk.seed) or fresh_battery(chk.seed)
